@@ -36,6 +36,29 @@ pub fn derive_sets() -> Vec<Option<Vec<String>>> {
     vec![None, v(&[]), v(&["Debug"]), v(&["Clone"]), v(&["Debug", "Clone", "PartialEq", "Eq"])]
 }
 
+/// names a derive set may contain: traits, paths of traits, and strings that are neither
+pub const DERIVE_NAMES: [&str; 18] = [
+    "Debug", "Clone", "PartialEq", "std::hash::Hash", "serde::Serialize", "::core::fmt::Debug", "", " ", "1x", "Debug Clone", "Clone,", "a-b", "Clone::", "r#try",
+    "self", "é", "Debug<T>", "#[x]",
+];
+
+/// every derive set of one or two DERIVE_NAMES (ordered)
+pub fn derive_name_sets() -> Vec<Option<Vec<String>>> {
+    let mut out = Vec::new();
+    for a in DERIVE_NAMES {
+        out.push(Some(vec![a.to_string()]));
+        for b in DERIVE_NAMES {
+            out.push(Some(vec![a.to_string(), b.to_string()]));
+        }
+    }
+    out
+}
+
+fn is_trait_path(name: &str) -> bool {
+    let n = name.strip_prefix("::").unwrap_or(name);
+    !n.is_empty() && n.split("::").all(|p| !p.is_empty() && p.chars().all(|c| c.is_ascii_alphanumeric() || c == '_') && !p.chars().next().unwrap().is_ascii_digit() && p != "self")
+}
+
 pub fn compile(text: &str, derives: &Option<Vec<String>>) -> Out {
     let r = catch_unwind(AssertUnwindSafe(|| -> Result<(), String> {
         let g = RealGrammar::from_str(text).map_err(|e| format!("parse error at {}", e.position))?;
@@ -260,6 +283,24 @@ pub fn paths(tier: Tier) -> Vec<(String, Option<bool>, String)> {
     out
 }
 
+/// every sequence of two or three rule definitions over two names and five bodies: the same name defined
+/// more than once, with include cycles through the first, the last or no definition of a name
+pub fn duplicates() -> Vec<(String, Option<bool>, String)> {
+    let names = ["A", "B"];
+    let bodies = ["> A 'a'", "> B 'b'", "'x'", "f : A", "[ > B ] 'y'"];
+    let defs: Vec<String> = names.iter().flat_map(|n| bodies.iter().map(move |b| format!("{n} = {b} ;\n"))).collect();
+    let mut out = Vec::new();
+    for a in &defs {
+        for b in &defs {
+            out.push((format!("{a}{b}"), None, "rule definitions with repeated names".to_string()));
+            for c in &defs {
+                out.push((format!("{a}{b}{c}"), None, "rule definitions with repeated names".to_string()));
+            }
+        }
+    }
+    out
+}
+
 /// grammars that must be ACCEPTED (guards against "reject everything")
 pub fn must_accept() -> Vec<(String, Option<bool>, String)> {
     let mut out = Vec::new();
@@ -281,6 +322,13 @@ fn family(name: &str, tier: Tier) -> Vec<(String, Option<bool>, String)> {
     match name {
         "mutations" => mutations(tier),
         "paths" => paths(tier),
+        "duplicates" => duplicates(),
+        // valid grammars of every rule kind, compiled under every derive set of one or two DERIVE_NAMES
+        "derives" => vec![
+            ("@export Root = a:A [ b:B ] ;\nA = 'a' ;\n@string B = 'b' ;\n".to_string(), None, "derive names".to_string()),
+            ("@export Root = e:E ;\nE = @:A | @:B ;\nA = 'a' ;\n@position B = 'b' ;\n".to_string(), None, "derive names".to_string()),
+            ("@export Root = f:A | f:B ;\n@position @string A = 'a' ;\n@char B = 'b' ;\n".to_string(), None, "derive names".to_string()),
+        ],
         "catalogue" => {
             let mut v = catalogue(tier);
             v.extend(must_accept());
@@ -332,8 +380,18 @@ pub fn worker(args: &[String]) {
             Some(l) => l[idx as usize].clone(),
         };
         // the catalogue is run under every derive set; the big spaces under the default one
-        let sets: &[Option<Vec<String>>] = if fam == "catalogue" { &dsets } else { &dsets[..1] };
+        let name_sets;
+        let sets: &[Option<Vec<String>>] = if fam == "catalogue" {
+            &dsets
+        } else if fam == "derives" {
+            name_sets = derive_name_sets();
+            &name_sets
+        } else {
+            &dsets[..1]
+        };
         for d in sets {
+            // a derive set made of trait paths only must be accepted for a valid grammar
+            let expect = if fam == "derives" && d.as_ref().unwrap().iter().all(|n| is_trait_path(n)) { Some(false) } else { expect };
             st.evaluations += 1;
             let out = compile(&text, d);
             match &out {
@@ -648,7 +706,7 @@ pub fn run(tier: Tier, cli: &str) {
     let mut lines: Vec<Value> = Vec::new();
     let nshards = 16;
     let mut fams = BTreeMapCount::default();
-    for fam in ["catalogue", "paths", "mutations", "tokens"] {
+    for fam in ["catalogue", "paths", "duplicates", "derives", "mutations", "tokens"] {
         let before = st.evaluations;
         run_family(fam, tier, nshards, &mut st, &mut lines);
         fams.0.push((fam.to_string(), family_len(fam, tier), st.evaluations - before));
